@@ -105,7 +105,7 @@ class Harness:
                 self._twin_state = None
                 fails = self.clean()
             elif op == 'sweep':
-                fails = self.sweep(step[1])
+                fails = self.sweep(step[1], step[2] if len(step) > 2 else None)
             elif op == 'save':
                 self._save_state()
                 fails = []
@@ -234,17 +234,23 @@ class Harness:
     def _holds_cache(self, p):
         return self.cache.startswith(p + '/')
 
-    def sweep(self, versions):
-        """Exhaustive single-preemption sweep of a parallel build from the current state, each run followed
-        by an unchanged rebuild and clean (schedule-robust form of a regression witness)."""
+    def sweep(self, versions, random_spec=None):
+        """Exhaustive single-preemption sweep of a parallel build from the current state (or, with
+        random_spec = {"seeds": n, "p": p, "first": f}, n seeded random schedules), each run followed by an
+        unchanged rebuild and clean (schedule-robust form of a regression witness)."""
         self._save_state()
         fails = self.build(versions, None, None, {'sched': {'preempt': []}})
         if fails:
             return fails
         n = ((self.rctx.extra.get('sched_runs') or [{'decisions': 0}])[0])['decisions']
-        for i in range(1, n + 1):
+        if random_spec:
+            specs = [{'mode': 'random', 'seed': sd, 'p': random_spec.get('p', 0.15), 'first': random_spec.get('first', 0)}
+                     for sd in range(random_spec['seeds'])]
+        else:
+            specs = [{'preempt': [[i, 0]]} for i in range(1, n + 1)]
+        for i, spec in enumerate(specs, 1):
             self._restore_state()
-            for s in (['build', versions, None, None, {'sched': {'preempt': [[i, 0]]}}],
+            for s in (['build', versions, None, None, {'sched': spec}],
                       ['build', versions, None, None, {'sched': {'preempt': []}}], ['clean']):
                 fails = self.build(s[1], None, None, s[4]) if s[0] == 'build' else self.clean()
                 if fails:
